@@ -395,6 +395,7 @@ class Model(Object):
                 new.__dict__[attr] = self.__dict__[attr]
         new.notes = deepcopy(self.notes)
         new.annotation = deepcopy(self.annotation)
+        new._compartments = self._compartments.copy()
         # The copy starts without contexts; assign this before building the
         # reactions, which look for the context of their model.
         new._contexts = []
@@ -406,6 +407,8 @@ class Model(Object):
             for attr, value in metabolite.__dict__.items():
                 if attr not in do_not_copy_by_ref:
                     new_met.__dict__[attr] = copy(value) if attr == "formula" else value
+            new_met.notes = deepcopy(metabolite.notes)
+            new_met.annotation = deepcopy(metabolite.annotation)
             new_met._model = new
             new.metabolites.append(new_met)
 
@@ -417,6 +420,8 @@ class Model(Object):
                     new_gene.__dict__[attr] = (
                         copy(value) if attr == "formula" else value
                     )
+            new_gene.notes = deepcopy(gene.notes)
+            new_gene.annotation = deepcopy(gene.annotation)
             new_gene._model = new
             new.genes.append(new_gene)
 
